@@ -4,6 +4,8 @@ import Pyunicorn.Lemmas.SurrogatesTwins
 import Pyunicorn.Lemmas.SurrogatesCompose
 import Pyunicorn.Lemmas.SurrogatesSpectrum
 import Pyunicorn.Lemmas.SurrogatesKernel
+import Pyunicorn.Lemmas.SurrogatesKernelW
+import Pyunicorn.Lemmas.SurrogatesObject
 /-!
 # C15 — Surrogates preserve exactly what each method promises
 
@@ -37,7 +39,12 @@ Clauses of the statement and where they are:
   loop-level model of the kernels with the source's index arithmetic and arbitrary work-array content)
 * repeated generation does not degrade ...................... the theorems above quantify over the call
   history (`fourierCalls`, both modes), the number of refinement steps and the position `c` of the
-  random stream at which a walk starts.
+  random stream at which a walk starts; `twin_surrogates_every_history`, `twins_cache_coherent` (one
+  `Surrogates` object over every history of normalize / embedding setter / twins / twin_surrogates calls)
+* round 3: the neighbour counter in the machine integer of the source (`twins_iff_machine_counter`,
+  `twins_counter_width_exact`, `twins_counter_wrap_loses_twins`), the subscripts of the source
+  (`twins_scan_reads_rows`, `rp_twins_source_subscripts`: asymmetric matrices), whole methods
+  (`twin_surrogates_loop_level_machine`, `rp_twin_surrogates_method`).
 -/
 namespace Pyunicorn.Surrogates
 
@@ -426,8 +433,8 @@ example : Work.Shaped 2 ⟨[[false, true], [true, false]], [-7, 300]⟩ :=
   ⟨rfl, by simp, rfl⟩
 
 /-- lines 173-189: the symmetric zeroing builds the supremum-norm recurrence matrix and the
-decrement bookkeeping of `nR` ends at the row sums (no int16 wrap-around: `n_time < 32768`
-is outside the model) -/
+decrement bookkeeping of `nR` ends at the row sums (counter in `Int`; the machine integer is
+`twins_kernel_machine_counter_state` / `twins_counter_width_exact` below) -/
 theorem twins_kernel_recurrence_and_counts (thr : Rat) (emb : List (List Rat)) :
     recLoop thr emb ⟨List.replicate emb.length (List.replicate emb.length true),
         List.replicate emb.length (emb.length : Int)⟩
@@ -457,6 +464,183 @@ theorem twin_surrogates_loop_level (u : Nat → Rat) (hu : ∀ c, 0 ≤ u c ∧ 
       List.Forall₂ (RowSpec (n - (dim - 1) * delay) dim delay thr md) out data := by
   rw [twinSurrogatesK_eq data n dim delay thr md (floorPick u) g gn hd hrows]
   exact twin_surrogates_method u hu n dim delay thr md hd hfit data hrows
+
+/-! ## Round 3: the machine integer of the neighbour counter, the source's subscripts, whole methods
+over object histories
+
+`Model/SurrogatesKernelW.lean`: `nR` lives in a signed `bits`-bit integer (`bits` is read off the
+source on every run: int16 in the pinned code, int32 after `fix: … neighbour counter`), every store /
+decrement / scan subscript is the expression regenerated from `numerics.pyx`. -/
+
+/-- **`_twins_s` with the machine counter, every length, every counter width**: `k` is listed for `j`
+iff the two are separated, have identical rows in the recurrence matrix, and the row sum *as the
+`bits`-bit counter holds it* is not one.  (The equality test `nR[j] == nR[k]` on wrapped values can
+only let more pairs through to the row scan, which decides.) -/
+theorem twins_iff_machine_counter (bits : Nat) (thr : Rat) (md : Nat) (emb : List (List Rat))
+    (w0 : Work) (h : w0.Shaped emb.length) (j k : Nat) :
+    (∃ l, (twinsKernelOneW bits thr md emb w0).1[j]? = some l ∧ k ∈ l) ↔
+      j < emb.length ∧ k < emb.length ∧ (k + md < j ∨ j + md < k) ∧
+        ∃ r, (recMatrix thr emb)[j]? = some r ∧ (recMatrix thr emb)[k]? = some r ∧
+          wrapInt bits (r.count true : Nat) ≠ 1 := by
+  rw [twinsKernelOneW_eq bits thr md emb w0 h]
+  simp only [mem_twinLists_iff]
+  constructor
+  · rintro ⟨hj, hk, h | h⟩
+    · obtain ⟨r, h1, h2, h3⟩ := (isTwinW_wrap_iff bits _ j k).1 h.2
+      exact ⟨hj, hk, .inl h.1, r, h1, h2, h3⟩
+    · obtain ⟨r, h1, h2, h3⟩ := (isTwinW_wrap_iff bits _ k j).1 h.2
+      exact ⟨hj, hk, .inr h.1, r, h2, h1, h3⟩
+  · rintro ⟨hj, hk, h | h, r, h1, h2, h3⟩
+    · exact ⟨hj, hk, .inl ⟨h, (isTwinW_wrap_iff bits _ j k).2 ⟨r, h1, h2, h3⟩⟩⟩
+    · exact ⟨hj, hk, .inr ⟨h, (isTwinW_wrap_iff bits _ k j).2 ⟨r, h2, h1, h3⟩⟩⟩
+
+/-- **no wrap-around effect up to `n_time = 2^bits`**: for every series of at most `2^bits` states
+(`bits ≥ 2`), every content of the work arrays, the kernel with the machine counter lists exactly the
+twins of the definition (`twins_iff`).  With the int32 counter of the repaired code this covers every
+`n_time` a C `int` can hold. -/
+theorem twins_counter_width_exact (bits : Nat) (hb : 2 ≤ bits) (thr : Rat) (md : Nat)
+    (embs : List (List (List Rat))) (n : Nat) (hn : ∀ e ∈ embs, e.length = n)
+    (hw : (n : Int) ≤ 2 ^ bits) (w0 : Work) (h : w0.Shaped n) :
+    (twinsKernelW bits thr md embs w0).1 = embs.map (twinsS thr md) :=
+  twinsKernelW_eq bits hb thr md embs n hn hw w0 h
+
+example : ((2 ^ 31 - 1 : Nat) : Int) ≤ 2 ^ 32 := by decide
+
+/-- the bound is sharp: with a `bits`-bit counter a state with `2^bits + 1` neighbours is taken for
+an isolated one.  Scaled-down image (`bits = 2`, five identical states) of the defect of the pinned
+int16 counter at `n_time = 65537` (`fix: … neighbour counter`, replay in findings/C15.json): the
+kernel lists no twins at all where the definition lists every pair. -/
+theorem twins_counter_wrap_loses_twins :
+    (twinsKernelOneW 2 0 0 [[0], [0], [0], [0], [0]]
+        ⟨List.replicate 5 (List.replicate 5 false), [3, -1, 0, 1, 2]⟩).1 = [[], [], [], [], []] ∧
+      twinsS 0 0 [[0], [0], [0], [0], [0]]
+        = [[1, 2, 3, 4], [0, 2, 3, 4], [0, 1, 3, 4], [0, 1, 2, 4], [0, 1, 2, 3]] := by
+  constructor <;> decide +kernel
+
+/-- the arrays `_twins_s` leaves behind: the recurrence matrix and the row sums wrapped into the
+counter type — for every counter width, length and initial content -/
+theorem twins_kernel_machine_counter_state (bits : Nat) (thr : Rat) (emb : List (List Rat)) (w0 : Work)
+    (h : w0.Shaped emb.length) :
+    recLoopW bits thr emb (initLoopW bits emb.length w0)
+      = ⟨recMatrix thr emb, (rowCounts (recMatrix thr emb)).map fun c : Nat => wrapInt bits c⟩ := by
+  rw [recLoopW_initLoopW bits thr emb w0 h]
+  simp [wrapW]
+
+open Pyunicorn.Generated in
+/-- **the scan `while R[j, l] == R[k, l]: l += 1; if l == N: …; break` with the subscripts of the
+source** decides equality of *rows* `j` and `k`, never reads outside the matrix, for every square
+matrix — symmetric or not (fixed local recurrence rate, adaptive neighbourhood size). -/
+theorem twins_scan_reads_rows (n : Nat) (R : List (List Bool)) (hS : Square n R) (j k : Nat)
+    (hj : j < n) (hk : k < n) :
+    ∃ rj rk, R[j]? = some rj ∧ R[k]? = some rk ∧
+      scanR R n j k = some (decide (rj = rk)) ∧ scanS R n j k = some (decide (rj = rk)) := by
+  have hj' : j < R.length := by rw [hS.1]; exact hj
+  have hk' : k < R.length := by rw [hS.1]; exact hk
+  refine ⟨R[j], R[k], List.getElem?_eq_getElem hj', List.getElem?_eq_getElem hk', ?_, ?_⟩
+  · have := scanK_rows scanR_hA endR_eq R n j k R[j] R[k] (List.getElem?_eq_getElem hj')
+      (List.getElem?_eq_getElem hk') (hS.2 _ (List.getElem_mem hj')) (hS.2 _ (List.getElem_mem hk'))
+      n 0 (by omega) (by omega)
+    unfold scanR
+    rw [this, List.drop_zero, List.drop_zero]
+    congr 1
+    rw [Bool.eq_iff_iff, sameRow_iff]; simp
+  · have := scanK_rows scanS_hA endS_eq R n j k R[j] R[k] (List.getElem?_eq_getElem hj')
+      (List.getElem?_eq_getElem hk') (hS.2 _ (List.getElem_mem hj')) (hS.2 _ (List.getElem_mem hk'))
+      n 0 (by omega) (by omega)
+    unfold scanS
+    rw [this, List.drop_zero, List.drop_zero]
+    congr 1
+    rw [Bool.eq_iff_iff, sameRow_iff]; simp
+
+/-- **`RecurrencePlot.twins` at the level of the source's subscripts, on every square recurrence
+matrix (asymmetric ones included)**: range, condition and scan of `_twins_r` as regenerated from
+`numerics.pyx` give the lists characterised by `rp_twins_iff`. -/
+theorem rp_twins_source_subscripts (md : Nat) (R : List (List Bool)) (hS : Square R.length R) :
+    rpTwinsKW md R = rpTwins md R :=
+  rpTwinsKW_eq md R hS
+
+/-- an asymmetric matrix: rows 0 and 1 agree, columns 0 and 1 do not -/
+example : rpTwinsKW 0 [[true, true, true], [true, true, true], [true, false, true]]
+    = [[1], [0], [], []] := by decide +kernel
+
+example : Square 3 [[true, true, true], [true, true, true], [true, false, true]] :=
+  ⟨rfl, by simp⟩
+
+/-- **`Surrogates.twin_surrogates` at loop level with the machine counter** (embedding kernel,
+`twins()` on `np.empty` work arrays, `bits`-bit counter, subscripts of the source, walk, read-out):
+the specification of `twin_surrogates_method`, for every number of embedded states up to `2^bits`. -/
+theorem twin_surrogates_loop_level_machine (bits : Nat) (hb : 2 ≤ bits) (u : Nat → Rat)
+    (hu : ∀ c, 0 ≤ u c ∧ u c < 1) (n dim delay : Nat)
+    (thr : Rat) (md : Nat) (hd : 1 ≤ dim) (hfit : (dim - 1) * delay ≤ n)
+    (hw : ((n - (dim - 1) * delay : Nat) : Int) ≤ 2 ^ bits)
+    (data : List (List Rat)) (hrows : ∀ r ∈ data, r.length = n)
+    (g : Nat → Nat → Bool) (gn : Nat → Int) :
+    ∃ out, twinSurrogatesKW bits data dim delay thr md (floorPick u) g gn = some out ∧
+      List.Forall₂ (RowSpec (n - (dim - 1) * delay) dim delay thr md) out data := by
+  rw [twinSurrogatesKW_eq bits hb data n dim delay thr md (floorPick u) g gn hd hrows hw]
+  exact twin_surrogates_method u hu n dim delay thr md hd hfit data hrows
+
+/-- **`RecurrencePlot.twin_surrogates(n_surrogates, min_dist)` as a whole**, for every recurrence
+matrix `R` with as many rows as there are state vectors, every `min_dist`, number of surrogates and
+draw stream in [0,1): the call succeeds, returns `n_surrogates` trajectories, and each trajectory is
+`embedding[l]` for an index path `l` of length `N` through original states whose steps are all allowed
+(`Succ`) w.r.t. the twins of `R` (`rp_twins_iff`) — the read-out `surrogates[i, j, :] = embedding[k, :]`
+included. -/
+theorem rp_twin_surrogates_method (u : Nat → Rat) (hu : ∀ c, 0 ≤ u c ∧ u c < 1) (md ns : Nat)
+    (R : List (List Bool)) (emb : List (List Rat)) (hR : R.length = emb.length) :
+    ∃ out, rpTwinSurrogates md ns R emb (floorPick u) = some out ∧ out.length = ns ∧
+      ∀ traj ∈ out, TrajSpec emb.length md R emb traj :=
+  rpTwinSurrogates_spec (floorPick_good u hu) md ns R emb hR
+
+example : rpTwinSurrogates 0 1 [[true, false, true], [false, true, false], [true, false, true]]
+    [[5], [6], [7]] (fun c m => [2, 0, 1].getD c 0 % m) = some [[[7], [6], [7]]] := by decide +kernel
+
+/-- **cache coherence of `twins` over every history** of `normalize_original_data`, `embedding = …`,
+`twins`, `twin_surrogates` calls on one object: `twins(thr, md)` returns the twins of the embedding
+the object holds now (memoised results are never those of an embedding that has been replaced). -/
+theorem twins_cache_coherent (n : Nat) (data : List (List Rat)) (hrows : ∀ r ∈ data, r.length = n)
+    (ops : List Op) (hops : ∀ op ∈ ops, op.Ok n) (thr : Rat) (md : Nat)
+    (e : List (List (List Rat)))
+    (he : (SObj.run Policy.code (SObj.fresh data) ops).2.emb = some e) :
+    ((SObj.run Policy.code (SObj.fresh data) ops).2.twinsCall Policy.code thr md).1
+      = some (e.map (twinsS thr md)) :=
+  twinsCall_of_inv n _ thr md e (inv_run n _ ops (inv_fresh data n hrows) hops) he
+
+/-- **repeated generation does not degrade the twin guarantee**: after *every* history of calls on
+one object (normalisations, embeddings set by hand, `twins` queries that fill the cache, earlier
+`twin_surrogates` calls with other parameters), `twin_surrogates` satisfies the specification of
+`twin_surrogates_method` **with respect to the data the object holds now** — the embedding is
+recomputed from it and no memoised twin table of an earlier embedding can be served. -/
+theorem twin_surrogates_every_history (u : Nat → Rat) (hu : ∀ c, 0 ≤ u c ∧ u c < 1)
+    (n dim delay : Nat) (thr : Rat) (md : Nat) (hd : 1 ≤ dim) (hfit : (dim - 1) * delay ≤ n)
+    (data : List (List Rat)) (hrows : ∀ r ∈ data, r.length = n)
+    (ops : List Op) (hops : ∀ op ∈ ops, op.Ok n) :
+    ∃ out, ((SObj.run Policy.code (SObj.fresh data) ops).2.twinSurr Policy.code dim delay thr md
+          (floorPick u)).1 = some out ∧
+      List.Forall₂ (RowSpec (n - (dim - 1) * delay) dim delay thr md) out
+        (SObj.run Policy.code (SObj.fresh data) ops).2.data :=
+  twinSurr_after_history (floorPick_good u hu) n dim delay thr md hd hfit data hrows ops hops
+
+example : ∀ op ∈ [Op.twinSurr 1 0 (1 / 2) 0 (fun _ _ => 0), Op.normalize [[-1, 1, -1, 1]],
+    Op.twins (1 / 2) 0], op.Ok 4 := by
+  intro op hop
+  simp only [List.mem_cons, List.mem_nil_iff, or_false] at hop
+  rcases hop with rfl | rfl | rfl
+  · intro c m hm; exact hm
+  · intro r hr; simp at hr; subst hr; rfl
+  · trivial
+
+/-- why the re-embedding matters (the seeded change C01-4, policy `ifStale`: re-embed only when no
+embedding of that shape is stored): after `twin_surrogates; normalize_original_data` the second
+`twin_surrogates` call walks on the twins of the *old* data — here the old series has the twin pair
+(0, 2), the normalised one has none, and the object still holds the old embedding. -/
+theorem stale_embedding_witness :
+    let ops := [Op.twinSurr 1 0 (1 / 2) 0 (fun _ _ => 0), Op.normalize [[0, 5, 9, 20]]]
+    ((SObj.run ⟨.ifStale, true⟩ (SObj.fresh [[0, 5, 0, 20]]) ops).2.twinSurr ⟨.ifStale, true⟩ 1 0 (1 / 2) 0
+        (fun _ _ => 0)).2.emb = some [[[0], [5], [0], [20]]] ∧
+      ((SObj.run Policy.code (SObj.fresh [[0, 5, 0, 20]]) ops).2.twinSurr Policy.code 1 0 (1 / 2) 0
+        (fun _ _ => 0)).2.emb = some [[[0], [5], [9], [20]]] := by
+  constructor <;> decide +kernel
 
 /-- a walk that jumps to the future of a twin (2 → 0+1), moves on, and restarts at the end -/
 example : walkRow 4 [[2], [], [0], []] (fun c m => [2, 0, 3, 1].getD c 0 % m) 0
